@@ -49,12 +49,29 @@ def rules_save(run, P='C06', ids=('.1', '.2', '.3')):
     r = run.rule(P + ids[1], 'deep history <-> active descendants of the exited parent, shallow history <-> active children; both intersected with a '
                           'snapshot (copy) of the configuration taken before the exit loop')
     stores = [s for s in A.in_region('exit') if s.label.startswith('mem_save')]
-    run.check(len(stores) >= 2, r, fi.short, 'one save per history kind', 'expected a save for deep and one for shallow history, found %d' % len(stores), A.exit_loop)
+    def scope_variants(node):
+        """[(extra atoms, scope call)] for one store: the scope handed to intersection(..) may be chosen per kind through a local
+        (`substates = descendants_for(..) if deep else children_for(..)`): each case counts as a save of its own."""
+        val = strip_cast(node.value)
+        inter = None
+        for e in [val] + q.local_origin(F, val):
+            e = strip_cast(e)
+            if isinstance(e, ast.Call) and isinstance(e.func, ast.Name) and e.func.id in ('list', 'sorted', 'tuple') and e.args:
+                for e2 in [strip_cast(e.args[0])] + q.local_origin(F, strip_cast(e.args[0])):
+                    e2 = strip_cast(e2)
+                    if isinstance(e2, ast.Call) and isinstance(e2.func, ast.Attribute) and e2.func.attr == 'intersection' and e2.args:
+                        inter = e2
+        if inter is None or not isinstance(strip_cast(inter.args[0]), ast.Name):
+            return [([], None)]
+        cs = q.cases(F, strip_cast(inter.args[0]))
+        return [(at_, strip_cast(v_)) for v_, at_ in cs] if len(cs) > 1 else [([], None)]
+    n_saves = sum(len(scope_variants(s.node)) if isinstance(s.node, ast.Assign) else 1 for s in stores)
+    run.check(n_saves >= 2, r, fi.short, 'one save per history kind', 'expected a save for deep and one for shallow history, found %d' % n_saves, A.exit_loop)
     sv = A.exit_loop.target.id if isinstance(A.exit_loop.target, ast.Name) else None
     seen = set()
     r3 = run.rule(P + ids[2], 'the save runs for every exited compound state with a history child, depends on nothing else, and overwrites the '
                            'previous memory (plain store keyed by the history state)')
-    for s in stores:
+    for s, (v_atoms, v_scope) in [(s_, var_) for s_ in stores for var_ in (scope_variants(s_.node) if isinstance(s_.node, ast.Assign) else [([], None)])]:
         node = s.node
         run.check(s.label == 'mem_save:item-assign' and isinstance(node, ast.Assign), r3, fi.short, 'plain overwriting store',
                   'memory must be overwritten at every exit of the parent (%s is not a plain store)' % s.label, node)
@@ -62,13 +79,16 @@ def rules_save(run, P='C06', ids=('.1', '.2', '.3')):
             continue
         tgt = node.targets[0]
         key = q.unparse(tgt.slice) if isinstance(tgt, ast.Subscript) else '?'
-        ats = guard_atoms(node, stop=A.exit_loop)
+        ats = guard_atoms(node, stop=A.exit_loop) + [a_ for a_ in v_atoms if a_ not in guard_atoms(node, stop=A.exit_loop)]
         kinds = [a for a in ats if a[0] == 'truthy' and a[1].startswith('isinstance(')]
         child = None
         hk = None
         parent_ok = False
         extra = []
-        for a in ats:
+        neg_kinds = []
+        for a in sorted(ats, key=lambda a_: ('Shallow' in a_[1] and 'Deep' in a_[1])):      # (the test on both kinds last: a more specific one wins)
+            if a[0] == 'truthy' and hk in ('deep', 'shallow') and 'HistoryState' in a[1] and 'Shallow' in a[1] and 'Deep' in a[1]:
+                continue
             txt = a[1].replace(' ', '')
             if a[0] == 'truthy' and txt.startswith('isinstance(%s,' % sv) and 'CompoundState' in txt:
                 parent_ok = True
@@ -76,9 +96,11 @@ def rules_save(run, P='C06', ids=('.1', '.2', '.3')):
                 child = txt[len('isinstance('):].split(',')[0]
                 hk = 'deep' if 'DeepHistoryState' in txt and 'Shallow' not in txt else 'shallow' if 'Shallow' in txt and 'Deep' not in txt else 'both'
             elif a[0] == 'falsy' and txt.startswith('isinstance(') and 'HistoryState' in txt:
-                pass   # the elif chain: not the other kind
+                neg_kinds.append('deep' if 'DeepHistoryState' in txt else 'shallow')   # the elif chain / the other case: not that kind
             else:
                 extra.append(a)
+        if hk == 'both' and len(neg_kinds) == 1:
+            hk = 'shallow' if neg_kinds[0] == 'deep' else 'deep'
         run.check(parent_ok and child is not None and not extra, r3, fi.short, 'save of %s history conditional only on state kinds' % hk,
                   'the save depends on %s' % (extra or 'an unrecognised condition'), node)
         run.check(child is not None and key == child + '.name', r3, fi.short, 'memory keyed by the history state', 'key is %s' % key, node)
@@ -116,7 +138,7 @@ def rules_save(run, P='C06', ids=('.1', '.2', '.3')):
         snap = None
         if good:
             snap = strip_cast(inter.func.value)
-            a0 = strip_cast(inter.args[0])
+            a0 = v_scope if v_scope is not None else strip_cast(inter.args[0])
             if isinstance(a0, ast.Call):
                 sh = q.callee_shorts(run, a0)[0]
                 scope = 'descendants' if 'Statechart.descendants_for' in sh else 'children' if 'Statechart.children_for' in sh else None
